@@ -29,6 +29,10 @@ PACKAGED = gen_iso.packaged_config()
 def roundtrip(config, codec, hexbm, msg, use_default_config=False):
     """None or (signature, message)"""
     kw = dict(encoding=codec, hex_bitmap=hexbm)
+    if codec == 'latin_1' and len(msg) % 2:
+        del kw['encoding']          # latin_1 is the documented default: rely on it for half of those cases
+    if not hexbm and len(msg) % 3 == 0:
+        del kw['hex_bitmap']        # likewise the binary bitmap
     if not use_default_config:
         kw['iso_config'] = config
     try:
